@@ -799,6 +799,7 @@ inline const auto& parser_h()
                 num('(', num, ')') >= _e2,
                 num('[', '[', num, ']', ']') >= _e3,
                 ll(num) >= construct<IV>{},                                  // IV{n}: a one-element list
+                ll(num, '!') >= construct<IV, 1>{},                          // construct<T, 1> with symbols AFTER the chosen one: they are ignored (T could be built from them too)
                 ll(ll, ',', num) >= push_back<1, 3>{},                       // container first, one symbol between
                 rl(num) >= construct<IV, 1>{},
                 rl(num, ',', rl) >= push_back<3, 1>{},                       // element first, one symbol between (lead 0, gap 1)
@@ -832,6 +833,7 @@ inline bool eval_h(const std::string& text, Top& out)
     int v = 0;
     // ll: num (',' num)*  in order
     if (!num(v)) return false; out.ll.push_back(v);
+    if (p < t.size() && t[p] == '!') ++p;        // ll <- num '!' : the list holds the number only
     while (p < t.size() && t[p] == ',') { ++p; if (!num(v)) return false; out.ll.push_back(v); }
     if (!expect(';')) return false;
     // rl: num (',' num)*  : built from the tail -> reversed
@@ -868,7 +870,7 @@ struct P_C02h
             auto sp = [&]() { return rng.chance(1, 5) ? std::string(rng.chance(1, 2) ? " " : "\n") : std::string(); };
             auto cnt = [&]() -> size_t { uint32_t k = rng.below(30); return k == 0 ? 1030 + rng.below(300) : k < 3 ? 20 + rng.below(60) : rng.below(6); };
             std::string s;
-            { size_t k = 1 + cnt(); for (size_t j = 0; j < k; ++j) { if (j) s += "," + sp(); s += num(0); } }
+            { size_t k = 1 + cnt(); for (size_t j = 0; j < k; ++j) { if (j) s += "," + sp(); s += num(0); if (j == 0 && rng.chance(1, 3)) s += sp() + "!"; } }
             s += ";" + sp();
             { size_t k = 1 + cnt(); for (size_t j = 0; j < k; ++j) { if (j) s += "," + sp(); s += num(0); } }
             s += ";" + sp();
@@ -1023,10 +1025,10 @@ static SpellTable make_spelling(Choice& ch0, uint64_t salt, const std::vector<in
     static const std::vector<std::vector<Spelling>> menu = {
         {{'c', "a", "a"}, {'s', "al", "al"}, {'r', "a[0-9]+", "anum"}, {'T', "a[0-9]+", "number"}},
         {{'c', "b", "b"}, {'s', "be", "be"}, {'s', "b", "b"}, {'R', "b[0-9]+", "r_b[0-9]+"}},
-        {{'c', "c", "c"}, {'s', "<=", "<="}, {'s', "if", "if"}, {'t', "c", "c"}},
+        {{'c', "c", "c"}, {'s', "<=", "<="}, {'s', "if", "if"}, {'t', "c", "c"}, {'c', "\x11", "\\x11"}},       // control characters whose \xHH names share a digit with '\x01' (same low nibble) ...
         {{'c', "d", "d"}, {'s', "<", "<"}, {'s', "i", "i"}, {'r', "d[0-9]+", "dnum"}, {'s', ";\n", ";\n"}},           // a string term with a line break inside
         {{'c', "e", "e"}, {'s', "end", "end"}, {'c', "\x01", "\\x01"}, {'s', "en", "en"}, {'c', std::string(1, '\0'), "\\x00"}},   // a char term that is the NUL byte
-        {{'c', "f", "f"}, {'s', "==", "=="}, {'c', "=", "="}, {'t', "f", "f"}}};
+        {{'c', "f", "f"}, {'s', "==", "=="}, {'c', "=", "="}, {'t', "f", "f"}, {'c', "\x0e", "\\x0e"}}};                        // ... or its 16-block
     SpellTable t;
     for (size_t i = 0; i < 6; ++i) t.sp.push_back(menu[i][ch.below(uint32_t(menu[i].size() > 4 && ch.chance(1, 4) ? menu[i].size() : 4))]);
     if (getenv("EMIT_NAMED_TERMS"))
@@ -1034,6 +1036,8 @@ static SpellTable make_spelling(Choice& ch0, uint64_t salt, const std::vector<in
         t.sp[0] = menu[0][3 - ch.below(2)];      // typed(named regex) by default, plain named regex sometimes
         if (ch.chance(1, 2)) t.sp[3] = menu[3][3];
     }
+    // several control-character char terms at once (their ids are generated \xHH strings): C11's, C17's and C01's programs
+    if (getenv("EMIT_CONTROL_TERMS") && ch.chance(1, 2)) { t.sp[4] = menu[4][2]; if (ch.chance(2, 3)) t.sp[2] = menu[2][4]; if (ch.chance(2, 3)) t.sp[5] = menu[5][4]; }
     // C10's programs: a string term with a line break inside is frequent; C07's programs: a char term that is the NUL byte - both on terminals the grammar uses
     if (getenv("EMIT_NEWLINE_TERM") && ch.chance(2, 3) && !used.empty()) t.sp[size_t(used[ch.below(uint32_t(used.size()))])] = menu[3][4];
     if (getenv("EMIT_NUL_TERM") && ch.chance(1, 2) && !used.empty()) { int u = used[ch.below(uint32_t(used.size()))]; if (t.sp[size_t(u)].text != menu[3][4].text) t.sp[size_t(u)] = menu[4][4]; }
@@ -1126,10 +1130,16 @@ static int emit_cases(const eng::Args& a)
         Choice ch(bytes);
         int cls = int(ch.weighted({5, 3, 3}));      // 0 conflict-free, 1 precedence (S/R), 2 recovery
         if (const char* only = getenv("EMIT_ONLY_CLASS")) cls = atoi(only);
+        // gallery (C01/C02's programs): the first attempts are the seed grammars as written, one after the other - shapes that random mutation keeps only rarely
+        // (no empty rule anywhere, indirect left recursion in a particular source order, ...) reach the DSL front end in every run
+        static size_t attempts = 0; gg::force_seed() = -1;
+        if (getenv("EMIT_SEED_GALLERY") && attempts < 18) { gg::force_seed() = int(attempts); cls = 0; }
+        ++attempts;
         GCase c; c.tmpl = 0;
         c.g = gg::gen_grammar(ch, cls == 0 ? gg::CONFLICT_FREE : cls == 1 ? gg::PRECEDENCE : gg::RECOVERY, c.strategy, tpl::t36_slots());
         Grammar& g = c.g;
-        if (g.rules.size() < 3 || g.rules.size() > 9) return;
+        const bool gallery = gg::force_seed() >= 0; gg::force_seed() = -1;
+        if (g.rules.size() < 3 || g.rules.size() > (gallery ? 12u : 9u)) return;
         // compiled programs use the default functor only where it means "pass the nonterminal's value on"
         for (auto& r : g.rules) if (r.passthrough && !(r.rhs.size() == 1 && !r.rhs[0].term)) r.passthrough = false;
         // drop unused nonterminals' rules? no: unused symbols are part of the domain. But every nonterminal that is used must have been declared: all N0..N5 are.
@@ -1139,7 +1149,7 @@ static int emit_cases(const eng::Args& a)
         if (cls == 0 && !pr.table.conflict_free()) return;
         if (cls == 1 && (!pr.table.has_sr || g.uses_error())) return;
         if (cls == 2 && !g.uses_error()) return;
-        if (per_class[cls] * 2 > want + 2 && !getenv("EMIT_ONLY_CLASS")) return;
+        if (per_class[cls] * 2 > want + 2 && !getenv("EMIT_ONLY_CLASS") && !gallery) return;
         { int reach = 0; for (int n = 0; n < g.nN; ++n) if (pr.an.reachable[size_t(n)]) ++reach; if (reach < 2 && !pr.an.left_rec && !pr.an.right_rec) return; }
         if (!seen.insert(g.hash()).second) return;
         eng::Rng rng = ch.fork();
@@ -1150,7 +1160,7 @@ static int emit_cases(const eng::Args& a)
         for (size_t i = all.size(); i-- > 0 && keep.size() < 14;) add(all[i]);       // random derivations and mutants come last in `all`
         for (size_t i = 0; i < all.size() && keep.size() < 22; i += 1 + rng.below(3)) add(all[i]);
         { gg::Input in; in.text = "  \n\t "; add(in); in.text = ""; add(in); }
-        for (int k = 0; k < 3 && !keep.empty(); ++k) { gg::Input in = keep[rng.below(uint32_t(keep.size()))]; in.text.insert(in.text.begin() + rng.below(uint32_t(in.text.size() + 1)), "z!@"[rng.below(3)]); add(in); }
+        for (int k = 0; k < 3 && !keep.empty(); ++k) { gg::Input in = keep[rng.below(uint32_t(keep.size()))]; static const char badb[] = {'z', '!', '@', '\0'}; in.text.insert(in.text.begin() + rng.below(uint32_t(in.text.size() + 1)), badb[rng.below(4)]); add(in); }      // a NUL byte is just another byte no term matches
         for (int k = 0; k < 2 && !keep.empty(); ++k) { gg::Input in = keep[rng.below(uint32_t(keep.size()))]; if (rng.chance(1, 2)) in.skip_nl = false; else in.skip_ws = false; in.text += rng.chance(1, 2) ? "\n a" : " b"; keep.push_back(in); }
         // half of the cases: real term kinds. Inputs are re-rendered with the spellings; the reference re-tokenises the new text.
         bool spelled = (ch.chance(1, 2) || getenv("EMIT_NAMED_TERMS") || getenv("EMIT_ALWAYS_SPELLED")) && !getenv("EMIT_NO_SPELLING");
